@@ -226,6 +226,11 @@ func recvPlain(ctx context.Context, conn transport.Conn) (*bin.Buffer, error) {
 // Run plays the server over conn until the exchange is complete or a step fails.
 func (s *ScriptedServer) Run(ctx context.Context, conn transport.Conn) (out ServerOutcome) {
 	fail := func(err error) ServerOutcome { out.Err = err; return out }
+	defer func() {
+		if p := recover(); p != nil {
+			out.Err = fmt.Errorf("scripted server panic: %v", p)
+		}
+	}()
 
 	// 1. req_pq_multi
 	b, err := recvPlain(ctx, conn)
@@ -360,7 +365,10 @@ func (s *ScriptedServer) Run(ctx context.Context, conn transport.Conn) (out Serv
 			var cd mt.ClientDHInnerData
 			if err := cd.Decode(&bin.Buffer{Buf: data}); err == nil && s.DhPrime.Sign() > 0 {
 				gb := new(big.Int).SetBytes(cd.GB)
-				new(big.Int).Exp(gb, a, s.DhPrime).FillBytes(authKey)
+				// (a strategy may have chosen a modulus of more than 2048 bits: keep the low 2048)
+				k := new(big.Int).Exp(gb, a, s.DhPrime)
+				k.And(k, new(big.Int).Sub(new(big.Int).Lsh(big.NewInt(1), 2048), big.NewInt(1)))
+				k.FillBytes(authKey)
 				out.ClientAnswerOK = true
 				out.AuthKey = authKey
 				out.Salt = Salt(newNonce, serverNonce)
